@@ -505,5 +505,78 @@ example : evalEpochs (⟨10, 7, 2, 4, none, 2, none, 0, none⟩ : FitCfg) 3 = 2 
 
 end examples
 
+/-! ## Extension round 2: attribute forwarding (`NeuralStateBase.__getattr__`, `WaveFunctionBase.__getattr__`) and the
+`compute_normalization` alias. Model: `QV.Frame.resolveMethod`, `rbmMethods`, `fwdOp`, `normalizationOp`; driver op `c14.resolve`. -/
+section forwarding
+
+/-- SPECIFICATION (independent list): the ten read-only evaluators of the two RBM classes -/
+def fwdEvaluatorNames (kd : Kind) : List String :=
+  match kd with
+  | .dens => ["effective_energy", "effective_energy_gradient", "gamma", "gamma_grad", "mixing_term", "partition",
+      "prob_a_given_v", "prob_h_given_v", "prob_v_given_ha"]
+  | _ => ["effective_energy", "effective_energy_gradient", "partition", "prob_h_given_v", "prob_v_given_h"]
+
+/-- **a forwarded call is the RBM method on `rbm_am`, and — unless it is `initialize_parameters` — read-only.** If `state.<name>` is answered
+by `__getattr__` (`resolveMethod … = forwarded c`) then the state does not define the name, `c` is the class of the method of that
+name of the RBM class of `rbm_am`, and the operation it denotes (`fwdOp`) writes no parameter of any object; an EVALUATOR moreover draws
+nothing (torch's generator is left where it was), `gibbs_steps` draws exactly the Bernoulli calls of `k` Gibbs steps on `rows` chains
+(the same frame as `compute_batch_gradients`' negative phase). Fails if e.g. `partition` were classified as a sampler, `gibbs_steps`
+as an evaluator, `initialize_parameters` as an operation, or resolution preferred the RBM over the state's own attribute. -/
+theorem C14_forwarded_read_only (S : Sem P O) (own : String → Bool) (kd : Kind) (name : String) (c : FwdClass)
+    (h : resolveMethod own kd name = .forwarded c) :
+    own name = false ∧ methodLookup (rbmMethods kd) name = some c ∧
+    ∀ (slot arg k rows : Nat) (op : Op), fwdOp slot arg k rows c = some op →
+      op.writesParams = false ∧ op.isPure = true ∧ op.slot? = some slot ∧
+      (∀ st : St P, (step S st op).1.objs = st.objs) ∧
+      (c = .evaluator → op = .eval slot arg ∧ ∀ st : St P, stepDraws st op = 0 ∧ (step S st op).1.torchGen = st.torchGen) ∧
+      (c = .gibbs → op = .batchGradient slot k rows arg ∧
+        ∀ (st : St P) (ob : Obj P), st.objs slot = some ob → stepCalls st op = gibbsCalls ob.arch k rows) := by
+  have hown : own name = false := by
+    cases ho : own name with
+    | false => rfl
+    | true => simp [resolveMethod, ho] at h
+  have hl : methodLookup (rbmMethods kd) name = some c := by
+    simp only [resolveMethod, hown] at h
+    cases hm : methodLookup (rbmMethods kd) name with
+    | none => simp [hm] at h
+    | some c' => simp only [hm] at h; cases h; rfl
+  refine ⟨hown, hl, fun slot arg k rows op hop => ?_⟩
+  cases c with
+  | evaluator =>
+    simp only [fwdOp, Option.some.injEq] at hop
+    subst hop
+    have hd : ∀ st : St P, stepDraws st (.eval slot arg) = 0 := by
+      intro st
+      simp only [stepDraws, stepCalls, Op.slot?]
+      cases st.objs slot <;> rfl
+    refine ⟨rfl, rfl, rfl, fun st => C14_read_only_step S st _ rfl, fun _ => ⟨rfl, fun st => ⟨hd st, ?_⟩⟩, fun hc => (by cases hc)⟩
+    rw [C14_draw_count_step S st _ (fun s' hh => by cases hh), hd st]
+    cases st.torchGen; rfl
+  | gibbs =>
+    simp only [fwdOp, Option.some.injEq] at hop
+    subst hop
+    refine ⟨rfl, rfl, rfl, fun st => C14_read_only_step S st _ rfl, fun hc => (by cases hc), fun _ => ⟨rfl, fun st ob hob => ?_⟩⟩
+    simp only [stepCalls, Op.slot?, hob, Op.plan]
+  | halfStep => simp [fwdOp] at hop
+  | initParams => simp [fwdOp] at hop
+
+/-- the table side: on a state that defines none of these names, exactly the names of `fwdEvaluatorNames` resolve to forwarded
+EVALUATORS; `gibbs_steps` is the forwarded sampler; `initialize_parameters` is forwarded and is NOT an operation the read-only theorem
+covers (it writes); an unknown name is an `AttributeError`; an own name is never forwarded -/
+theorem C14_forwarded_table (kd : Kind) :
+    ((rbmMethods kd).filter (fun e => e.2 = .evaluator)).map Prod.fst = fwdEvaluatorNames kd
+    ∧ (∀ name ∈ fwdEvaluatorNames kd, resolveMethod (fun _ => false) kd name = .forwarded .evaluator)
+    ∧ resolveMethod (fun _ => false) kd "gibbs_steps" = .forwarded .gibbs
+    ∧ resolveMethod (fun _ => false) kd "initialize_parameters" = .forwarded .initParams
+    ∧ resolveMethod (fun _ => false) kd "no_such_attribute" = .attributeError
+    ∧ (∀ own name, own name = true → resolveMethod own kd name = .own) := by
+  refine ⟨?_, ?_, ?_, ?_, ?_, fun own name h => by simp [resolveMethod, h]⟩ <;> cases kd <;> decide
+
+example : resolveMethod (fun n => n == "normalization" || n == "compute_normalization") .cplx "partition" = .forwarded .evaluator := by decide
+example : resolveMethod (fun n => n == "normalization" || n == "compute_normalization") .cplx "compute_normalization" = .own := by decide
+example : resolveMethod (fun _ => false) .pos "gamma" = .attributeError := by decide
+
+end forwarding
+
 end C14
 end QV.Props
